@@ -897,8 +897,36 @@ pub fn apply_ex(orig: &WPacket, site: &Site, t: &mut Tape, out_w: &mut Option<WP
                 1 => ps.items.len(),
                 _ => ps.items.len() / 2,
             };
-            ps.items.insert(at, Prop { id, val: PVal::Raw(vec![]) });
-            (all(ExpErr::InvalidPropertyId(id)), format!("unknown property id {:#04x} at position {} of the {} list", id, at, if in_will { "will" } else { "packet" }))
+            let mut spelled: Option<(Expect, String)> = None;
+            if !ps.items.is_empty() && t.chance(1, 3) {
+                // an existing property whose identifier is spelled like a two-byte variable byte integer (0x80|id, 2k):
+                // read as one byte it is an unknown identifier; folded back onto eight bits it would be the original one.
+                // Half of the time the declared section length is one short, so that a reader that takes both bytes for
+                // the identifier finds the lengths consistent.
+                let j = t.pick(ps.items.len());
+                let old = ps.items[j].clone();
+                if old.id < 0x80 {
+                    let single = Props { items: vec![old.clone()], declared: None, width: 0 };
+                    let sec = crate::model::serialize_props(&single);
+                    let lw = varint_min_width(single.body_len() as u32);
+                    let mut raw = vec![2 * (1 + t.pick(3)) as u8];
+                    raw.extend_from_slice(&sec[lw + 1..]);
+                    let nid = 0x80 | old.id;
+                    ps.items[j] = Prop { id: nid, val: PVal::Raw(raw) };
+                    let short = t.flag();
+                    if short {
+                        ps.declared = Some(ps.body_len() as u32 - 1);
+                    }
+                    spelled = Some((all(ExpErr::InvalidPropertyId(nid)), format!("identifier of property {:#04x} spelled as the two-byte variable byte integer {:#04x} xx{}", old.id, nid, if short { ", section length declared one short" } else { "" })));
+                }
+            }
+            match spelled {
+                Some(x) => x,
+                None => {
+                    ps.items.insert(at, Prop { id, val: PVal::Raw(vec![]) });
+                    (all(ExpErr::InvalidPropertyId(id)), format!("unknown property id {:#04x} at position {} of the {} list", id, at, if in_will { "will" } else { "packet" }))
+                }
+            }
         }
         Entry::PropDup => {
             let in_will = site.idx >= 1000;
